@@ -157,7 +157,7 @@ class Exec(ExecExpr):
                 return self.apply_contract(st, c, ty.recv, args, kwargs, node)
             if nested is not None or (c is not None and c.inline):
                 return self.inline_call(st, q, ty.recv, args, kwargs, node, c)
-            if c is None and ty.recv is None and _auto_inlinable(q):
+            if c is None and _auto_inlinable(q):
                 # a contract-less, loop-free helper of the package is verified as part of its caller (listed under
                 # inlined_callees in the evidence)
                 return self.inline_call(st, q, ty.recv, args, kwargs, node, None)
